@@ -1089,7 +1089,11 @@ impl Mon {
                         let m_prog = v.ev.pre.iter().find(|s| s.key == spl_token::ID || s.key == anchor_spl::token_2022::ID).map(|s| s.key).unwrap_or(spl_token::ID);
                         info.accts.first().and_then(|(_, p, _)| p.as_ref()).map(|p| {
                             let dst = crate::ix::ata(&p.emissions_destination_account, &bq.emissions_mint, &m_prog);
-                            p.emissions_destination_account != Pubkey::default() && v.post(&dst).and_then(token_amount).unwrap_or(0) > v.pre(&dst).and_then(token_amount).unwrap_or(0)
+                            // with a transfer fee a small payout may be withheld entirely: the payout must
+                            // be addressed to the registered destination and nobody else may gain
+                            let evault = crate::ix::emissions_vault(bk, &bq.emissions_mint);
+                            let others_gained = v.ev.pre.iter().any(|s| s.key != dst && s.key != evault && token_amount(&s.data).map(|a0| v.post(&s.key).and_then(token_amount).unwrap_or(0) > a0).unwrap_or(false));
+                            p.emissions_destination_account != Pubkey::default() && v.ev.pre_of(&dst).is_some() && !others_gained
                         }).unwrap_or(false)
                     }
                     _ => false,
